@@ -157,7 +157,7 @@ fn blocks_have_text(v: &[Block]) -> bool {
     }
     v.iter().any(|b| match b {
         Block::P(_, i) | Block::Inl(i) | Block::H(_, _, i) => inl(i),
-        Block::Div(_, k) | Block::Quote(_, k) => blocks_have_text(k),
+        Block::Div(_, k) | Block::Quote(_, k) | Block::Wrap(_, _, k) => blocks_have_text(k),
         Block::Ul(_, it) | Block::Ol(_, _, it) => it.iter().any(|x| blocks_have_text(&x.kids)),
         Block::Dl(_, it) => it.iter().any(|x| blocks_have_text(&x.kids)),
         Block::Pre(_, lines) => lines.iter().flatten().any(|t| matches!(t, gen::PreTok::Word(_))),
@@ -182,7 +182,7 @@ pub fn geometry_of_ast(t: &gen::Table) -> Geo {
 /// Apply `f` to every table of an AST (including nested ones).
 pub fn any_table(v: &[Block], f: &dyn Fn(&gen::Table) -> bool) -> bool {
     v.iter().any(|b| match b {
-        Block::Div(_, k) | Block::Quote(_, k) => any_table(k, f),
+        Block::Div(_, k) | Block::Quote(_, k) | Block::Wrap(_, _, k) => any_table(k, f),
         Block::Ul(_, it) | Block::Ol(_, _, it) => it.iter().any(|x| any_table(&x.kids, f)),
         Block::Dl(_, it) => it.iter().any(|x| any_table(&x.kids, f)),
         Block::Table(t) => f(t) || t.rows.iter().flat_map(|r| r.cells.iter()).any(|c| any_table(&c.kids, f)),
